@@ -166,9 +166,28 @@ def evaluate(case, out):
                 cid = f"{rows[r][0]}-{rows[r][1]}-{p}" if dom else f"{rows[r][1]}_{p}"
                 cvrs.append(CVR(id=cid, card_in_batch=p, votes={}))
                 k += 1
-    cvrs += [CVR(id=f"phantom-1-{j + 1}", votes={}, phantom=True) for j in range(case["nph"])]
+    if case["nph"] >= 2 and len(cvrs) % 2 == 1:
+        # the phantom records as CVR.make_phantoms creates them for a style-based audit of two contests, the second of
+        # which is short of more cards than the first
+        from shangrla.core.Audit import Audit, Contest
+
+        try:
+            for c in cvrs:
+                c.votes = {"K0": {}, "K1": {}}
+            cons = Contest.from_dict_of_dicts({cid: {"name": cid, "cards": len(cvrs) + extra_, "choice_function": "PLURALITY", "n_winners": 1,
+                                                     "candidates": ["A", "B"], "winner": ["A"]}
+                                               for cid, extra_ in (("K0", 1), ("K1", case["nph"]))})
+            aud = Audit.from_dict({"strata": {"s": {"max_cards": len(cvrs) + case["nph"], "use_style": True}}})
+            cvrs, _ = CVR.make_phantoms(audit=aud, contests=cons, cvr_list=cvrs, prefix="phantom-1-")
+            out.cls("phantom-cvrs-from-make_phantoms")
+        except Exception as e:  # noqa
+            out.lib_exception("make_phantoms", e)
+            return
+    else:
+        cvrs += [CVR(id=f"phantom-1-{j + 1}", votes={}, phantom=True) for j in range(case["nph"])]
     cs = [s for s in case["cvr_sample"] if s < len(cvrs)]
     if cs:
+        out.expect(len({cvrs[s].id for s in cs}) == len(cs), "two-sampled-records-share-one-card-identifier", lambda: [cvrs[s].id for s in cs])
         try:
             cards2, order2, cvr_s, mvr2 = V.sample_from_cvrs(cvrs, man, np.array(cs))
         except Exception as e:  # noqa
